@@ -68,6 +68,9 @@ class Task(object):
             self.exc = exc
             self.tb = traceback.format_exc()
         finally:
+            # like threading.Thread.run(): the target is let go when it has returned, so a
+            # finished task keeps nothing of the application alive
+            self.fn = None
             self.done = True
             self.kind = 'done'
             sim.current = None
